@@ -240,7 +240,7 @@ def _job(spec):
             if d:
                 problems.append(f"{tag} output does not echo the given cards: {d}")
             xg = o_.store.get("xgrid")
-            used = runner.attrs["configs"].attrs["managers"]["interpolator"].attrs["xgrid"].attrs["raw"]
+            used = R.manager(runner, "interpolator").attrs["xgrid"].attrs["raw"]
             if not (isinstance(xg, dict) and snap(list(xg.get("grid"))) == snap(list(used))):
                 problems.append(f"{tag} output grid {snap(xg.get('grid')) if isinstance(xg, dict) else xg} is not the grid the operators refer to ({snap(list(used))})")
             req = before_o["interpolation_xgrid"]
